@@ -117,17 +117,24 @@ def canon(v) -> str:
     return f"q:{fr.numerator}/{fr.denominator}"
 
 
-def int_points(lo: int, hi: int) -> list[int]:
+def int_points(lo: int, hi: int, small: bool = False) -> list[int]:
     pts = {lo, lo + 1, hi, hi - 1, 0, 1, -1, 2, -2, 3, -3, 4, 5, -5, 7, -7, 8, -8, 9, 10, -10, 100, -100,
            31, 32, 33, 63, 64, 127, 128, 255, 256, -127, -128, -129, 46340, 46341, -46341, 65535, 65536}
+    if small:
+        pts = {lo, lo + 1, hi, hi - 1, 0, 1, -1, 2, -2, 3, -3, 5, -5, 7, -7, 8, -8, 10, -10, 100, -100, 32, 33,
+               46341, -46341, 65536}
     return sorted(p for p in pts if lo <= p <= hi)
 
 
 HALVES = [Fraction(n, 2) for n in range(-9, 10)] + [Fraction(n, 4) for n in (-7, -5, -3, -1, 1, 3, 5, 7)] + \
          [Fraction(2 ** 23 + 1, 2), Fraction(-(2 ** 23 + 1), 2), Fraction(2 ** 24), Fraction(-2 ** 24),
-          Fraction(16777215, 2 ** 25), Fraction(1, 3).limit_denominator(1) + Fraction(33554431, 2 ** 26),
+          Fraction(16777215, 2 ** 25), Fraction(-16777215, 2 ** 25),
           Fraction(100), Fraction(-100), Fraction(1, 1024), Fraction(-1, 1024), Fraction(2147483520),
           Fraction(-2147483648)]
+
+
+for _h in HALVES:       # every float point must be an exact float32
+    assert Fraction(float(np.float32(float(_h)))) == _h, _h
 
 
 def entry_inputs(e, rng: common.Rng, thorough: bool) -> list[tuple]:
@@ -141,25 +148,29 @@ def entry_inputs(e, rng: common.Rng, thorough: bool) -> list[tuple]:
             lo, hi = (-128, 127) if name == "int8" else (0, 255)
             cols.append(list(range(lo, hi + 1)))
         elif name == "int32":
-            cols.append(int_points(-2 ** 31, 2 ** 31 - 1))
+            cols.append(int_points(-2 ** 31, 2 ** 31 - 1, small=len(e.in_dts) >= 2 and not thorough))
         else:
             cols.append(list(HALVES))
     if len(cols) == 1:
         return [(a,) for a in cols[0]]
     if all(np.dtype(d).name in ("int8", "uint8") for d in e.in_dts) and len(cols) == 2:
-        if thorough:
-            return [(a, b) for a in cols[0] for b in cols[1]]
+        # (all pairs are covered by the exhaustive sweep; here: the jaxSem-vs-JAX / recipe-vs-ORT tie)
         lo, hi = cols[1][0], cols[1][-1]
         ss = sorted({s for s in [0, 1, 2, 3, 4, 5, 6, 7, 8, 9, 15, 16, 31, 32, 33, 64, 127, 128, 200, 254, 255,
                                  -1, -2, -7, -8, -9, -128] if lo <= s <= hi} | {rng.randint(lo, hi) for _ in range(6)})
-        return [(a, b) for a in cols[0] for b in ss]
+        xs = sorted({x for x in [lo, lo + 1, hi, hi - 1, 0, 1, 2, 3, 7, 8, 15, 16, 64, 100, 127, 128, 129, 200, -1, -2,
+                                 -8, -64, -100, -127] if lo <= x <= hi} | {rng.randint(lo, hi) for _ in range(16)})
+        if thorough:
+            xs = cols[0]
+        return [(a, b) for a in xs for b in ss]
     # product, thinned deterministically when large
     out = [()]
     for c in cols:
         out = [t + (a,) for t in out for a in c]
-    if len(out) > 6000:
-        keep = set(range(0, len(out), max(1, len(out) // 3000)))
-        extra = {rng.randint(0, len(out) - 1) for _ in range(1500)}
+    cap = 6000 if thorough else 1500
+    if len(out) > cap:
+        keep = set(range(0, len(out), max(1, len(out) // (cap // 2))))
+        extra = {rng.randint(0, len(out) - 1) for _ in range(cap // 4)}
         out = [out[i] for i in sorted(keep | extra)]
     return out
 
@@ -174,7 +185,8 @@ def in_domain(e, t: tuple) -> bool:
         if x == -2 ** 31 and y == -1:
             return False            # INT_MIN / -1 overflows (ORT crashes with SIGFPE); no-overflow hypothesis
     if k == "rem" and dts[0] == "float32":
-        return t[1] != 0
+        # exact domain of the ℚ model: small dyadics (x/y is then exact in f32; ORT does not use an exact fmod)
+        return t[1] != 0 and all(Fraction(v).denominator <= 4 and abs(v) <= 100 for v in t)
     if k == "select_n3":
         return 0 <= t[0] < 3        # lax.select_n: selector must index a case
     if k == "f2i":
@@ -298,7 +310,9 @@ def op_points(dt: str, rng: common.Rng) -> list:
     return list(HALVES)
 
 
-def op_domain(lean: str, dts: list, t: tuple) -> bool:
+def op_domain(lean: str, dts: list, t: tuple, odt: str = "") -> bool:
+    if lean == "cast" and odt == "f32" and dts[0] != "bool":
+        return abs(int(t[0])) <= 2 ** 24        # exactly representable in float32
     if lean in ("div", "mod1", "mod0"):
         if t[1] == 0:
             return False
@@ -306,6 +320,8 @@ def op_domain(lean: str, dts: list, t: tuple) -> bool:
             return False
         if dts[0] == "i8" and t[0] == -128 and t[1] == -1:
             return False
+    if lean == "mod1" and dts[0] == "f32":
+        return t[1] != 0 and all(Fraction(v).denominator <= 4 and abs(v) <= 100 for v in t)
     if lean == "pow":
         x, k = t
         return 0 <= k <= 5 and abs(x) ** k < 2 ** 31      # ORT's integer Pow does not wrap (finding); in-range only
@@ -327,7 +343,7 @@ def validate_operators(chk: Check, rng: common.Rng) -> list[dict]:
         tuples = [()]
         for c in cols:
             tuples = [t + (a,) for t in tuples for a in c]
-        tuples = [t for t in tuples if op_domain(lean, dts, t)]
+        tuples = [t for t in tuples if op_domain(lean, dts, t, odt)]
         if len(tuples) > 1500:
             tuples = [tuples[i] for i in sorted({rng.randint(0, len(tuples) - 1) for _ in range(1200)} |
                                                 set(range(0, len(tuples), max(1, len(tuples) // 300))))]
@@ -343,7 +359,7 @@ def validate_operators(chk: Check, rng: common.Rng) -> list[dict]:
         for j, t in enumerate(tuples):
             lines.append(f"op fixed {odt} {dts[0]} {lean} " + " ".join(lean_val(v) for v in t))
             meta.append((op, attrs, dts, t, canon(out[j])))
-    ans = common.run_driver("C01", lines)
+    ans = yield lines
     bad = []
     per_op: dict[str, int] = {}
     for (op, attrs, dts, t, ortv), a in zip(meta, ans):
@@ -401,7 +417,7 @@ def validate_catalogue(chk: Check, rng: common.Rng, gen: dict, thorough: bool):
             meta.append(("recipe", e, t, ov))
             lines.append(f"jax {e.key} {e.t} " + " ".join(lean_val(v) for v in t))
             meta.append(("jax", e, t, jv))
-    ans = common.run_driver("C01", lines)
+    ans = yield lines
     tie_bad = []
     for (what, e, t, real), a in zip(meta, ans):
         ok = (a == real) or (what == "recipe" and real == "model-rejected" and a == "err")
@@ -422,7 +438,7 @@ def validate_sweeps(chk: Check, gen: dict) -> list[dict]:
     import jax.numpy as jnp
     bits = [e for e in gen["entries"] if e.bits]
     lines = [f"sweep {e.name} {e.key} {e.t} {len(e.in_dts)}" for e in bits]
-    ans = common.run_driver("C01", lines, timeout=1800)
+    ans = yield lines
     out = []
     summary = {}
     for e, a in zip(bits, ans):
@@ -542,9 +558,9 @@ def validate_tensor(chk: Check, rng: common.Rng, gen: dict):
         from onnx import TensorProto
         g = helper.make_graph(
             [helper.make_node("OneHot", ["x0", "d", "v"], ["y"], axis=-1)], "g",
-            [helper.make_tensor_value_info("x0", 7, [n])], [helper.make_tensor_value_info("y", 6, [n, depth])],
+            [helper.make_tensor_value_info("x0", 7, [n])], [helper.make_tensor_value_info("y", 1, [n, depth])],
             initializer=[helper.make_tensor("d", TensorProto.INT64, [], [depth]),
-                         helper.make_tensor("v", TensorProto.INT32, [2], [0, 1])])
+                         helper.make_tensor("v", TensorProto.FLOAT, [2], [0.0, 1.0])])
         m = helper.make_model(g, opset_imports=[helper.make_opsetid("", 23)])
         m.ir_version = 10
         s = _ort_session(m)
@@ -556,7 +572,7 @@ def validate_tensor(chk: Check, rng: common.Rng, gen: dict):
             for r, i in enumerate(ch):
                 lines.append(f"ohot {depth} {i}")
                 meta.append((f"OneHot(depth={depth})", [i], "".join("1" if v else "0" for v in (o[r] != 0))))
-    ans = common.run_driver("C01", lines)
+    ans = yield lines
     tie_bad = []
     for (name, inp, real), a in zip(meta, ans):
         chk.count({"stage": "tensor", "what": name, "input": inp, "real": real, "lean": a}, nontrivial=True,
@@ -634,7 +650,7 @@ def validate_bind_returned(chk: Check) -> list[dict]:
                 enc = ",".join("dN" if k == "dM" else k for k in cfg) or "-"
                 lines.append(f"bind {enc} {'none' if ret is None else ret}")
                 cases.append((cfg, ret, real))
-    ans = common.run_driver("C01", lines)
+    ans = yield lines
     bad = []
     for (cfg, ret, real), a in zip(cases, ans):
         if real == "bound ":
@@ -725,11 +741,22 @@ def run(chk: Check) -> None:
     proved = chk.prove(MODS, checker=thorough)
     chk.log(f"Lean done at {time.time() - t_start:.1f} s")
 
-    op_bad = validate_operators(chk, rng)
-    oracle_mm, tie_bad = validate_catalogue(chk, rng, gen, thorough)
-    sweeps = validate_sweeps(chk, gen)
-    t_mm, t_tie = validate_tensor(chk, rng, gen)
-    bind_bad = validate_bind_returned(chk)
+    # all driver requests of the five validation stages go through ONE driver process
+    stages = [validate_operators(chk, rng), validate_catalogue(chk, rng, gen, thorough), validate_sweeps(chk, gen),
+              validate_tensor(chk, rng, gen), validate_bind_returned(chk)]
+    reqs = [next(g) for g in stages]
+    chk.log(f"real-code side of the correspondence done at {time.time() - t_start:.1f} s "
+            f"({sum(len(r) for r in reqs)} driver requests)")
+    answers = common.run_driver("C01", [l for r in reqs for l in r], timeout=1800)
+    outs, pos = [], 0
+    for g, r in zip(stages, reqs):
+        try:
+            g.send(answers[pos:pos + len(r)])
+            raise RuntimeError("validation stage did not finish")
+        except StopIteration as st:
+            outs.append(st.value)
+        pos += len(r)
+    op_bad, (oracle_mm, tie_bad), sweeps, (t_mm, t_tie), bind_bad = outs
     chk.log(f"catalogue validation done at {time.time() - t_start:.1f} s")
 
     # ---- infrastructure-level disagreement: the hand-written semantics contradict the runtime
